@@ -55,6 +55,7 @@ func init() {
 			{Name: "model", Shards: 12, Fn: func(c *Ctx) { cbModelPart(c, "C12") }},
 			{Name: "freeramp", Race: true, Shards: 4, Fn: c12FreeRamp},
 			{Name: "longramp", Shards: 6, Fn: c12LongRamp},
+			{Name: "endburst", Race: true, Shards: 4, Fn: c12EndBurst},
 		},
 	})
 	register(&Property{
@@ -546,6 +547,9 @@ func (l *yieldLogger) Error(string, ...any) { l.stall() }
 
 // cbCycleRun drives one breaker from 8 goroutines while a ticker advances the frozen clock and flips the backend
 // between failing and healthy; the breaker's own Logger output gives the totally ordered sequence of state changes.
+// cbCycleHung is set when requests stopped completing for cbHangTimeout of real time (all of them blocked inside the breaker).
+var cbCycleHung atomic.Bool
+
 func cbCycleRun(c *Ctx, i int, r *rand.Rand) (seq []string, onTripped, onStandby int64, fb, rec time.Duration, total int) {
 	fb = pick(r, []time.Duration{500 * time.Millisecond, time.Second})
 	rec = pick(r, []time.Duration{500 * time.Millisecond, time.Second})
@@ -570,13 +574,14 @@ func cbCycleRun(c *Ctx, i int, r *rand.Rand) (seq []string, onTripped, onStandby
 	var stop atomic.Bool
 	var wg sync.WaitGroup
 	total = 1500 + r.IntN(c.N(1500, 4000))
-	var issued atomic.Int64
+	var issued, completed atomic.Int64
 	for g := 0; g < 8; g++ {
 		wg.Add(1)
 		go func() {
 			defer wg.Done()
 			for issued.Add(1) <= int64(total) {
 				cb.ServeHTTP(httptest.NewRecorder(), httptest.NewRequest("GET", "http://x.test/", nil))
+				completed.Add(1)
 			}
 		}()
 	}
@@ -598,7 +603,27 @@ func cbCycleRun(c *Ctx, i int, r *rand.Rand) (seq []string, onTripped, onStandby
 			}
 		}
 	}()
-	wg.Wait()
+	// progress watchdog: no request completing for cbHangTimeout of real time while some are outstanding = a hang
+	allDone := make(chan struct{})
+	go func() { wg.Wait(); close(allDone) }()
+	last, lastAt := int64(-1), time.Now()
+wait:
+	for {
+		select {
+		case <-allDone:
+			break wait
+		case <-time.After(100 * time.Millisecond):
+			if n := completed.Load(); n != last {
+				last, lastAt = n, time.Now()
+			} else if time.Since(lastAt) > cbHangTimeout {
+				cbCycleHung.Store(true)
+				stop.Store(true)
+				c.Violation("hang", sfmt("fallback %v recovery %v: 8 goroutines sending requests while the clock advances: after %d completed requests none has returned for %v: every request is blocked inside the breaker (deadlock)", fb, rec, last, cbHangTimeout), nil)
+				cbHangTimeout = 2 * time.Second
+				return
+			}
+		}
+	}
 	stop.Store(true)
 	lg.mu.Lock()
 	seq = append([]string(nil), lg.states...)
@@ -629,6 +654,9 @@ func c05Cycle(c *Ctx) {
 	c.Cases("cycle", c.N(24, 800), func(i int, r *rand.Rand) {
 		seq, _, _, fb, rec, total := cbCycleRun(c, i, r)
 		c.Eval()
+		if cbCycleHung.Load() {
+			return
+		}
 		c.Count("cycle_requests", int64(total))
 		c.Count("cycle_state_changes_observed", int64(len(seq)))
 		legal := map[string]map[string]bool{"standby": {"tripped": true}, "tripped": {"recovering": true}, "recovering": {"standby": true, "tripped": true}}
@@ -653,6 +681,9 @@ func c18CycleEffects(c *Ctx) {
 	c.Cases("cycleeffects", c.N(24, 800), func(i int, r *rand.Rand) {
 		seq, gotT, gotS, fb, rec, total := cbCycleRun(c, i, r)
 		c.Eval()
+		if cbCycleHung.Load() {
+			return
+		}
 		c.Count("cycle_requests", int64(total))
 		wantT, wantS := int64(0), int64(0)
 		prev := "standby"
@@ -748,4 +779,110 @@ func c12LongRamp(c *Ctx) {
 		}
 	})
 	c.Require("longramp_nontrivial", 2)
+}
+
+// c12EndBurst: the end of the recovery period under concurrency. Trip, wait out the fallback period, enter recovery, move
+// the frozen clock past the end of the recovery period with a healthy backend, then release a burst of requests at that
+// one instant: whatever the interleaving, each of them finds (or makes) the breaker standby and is passed to the handler,
+// none is left hanging, and the traffic after it passes as well.
+func c12EndBurst(c *Ctx) {
+	c.Cases("endburst", c.N(400, 8000), func(i int, r *rand.Rand) {
+		fb := pick(r, []time.Duration{500 * time.Millisecond, time.Second})
+		rec := pick(r, []time.Duration{500 * time.Millisecond, time.Second, 4 * time.Second})
+		freeze(baseTime.Add(time.Duration(r.Int64N(1e9))))
+		defer unfreeze()
+		var status atomic.Int64
+		status.Store(502)
+		var handled atomic.Int64
+		h := http.HandlerFunc(func(w http.ResponseWriter, req *http.Request) {
+			handled.Add(1)
+			w.WriteHeader(int(status.Load()))
+		})
+		fbh := http.HandlerFunc(func(w http.ResponseWriter, req *http.Request) { w.WriteHeader(503) })
+		lg := &yieldLogger{}
+		lg.seed.Store(r.Uint64())
+		opts := []cbreaker.Option{cbreaker.FallbackDuration(fb), cbreaker.RecoveryDuration(rec), cbreaker.CheckPeriod(time.Second), cbreaker.Fallback(fbh)}
+		if r.IntN(2) == 0 {
+			opts = append(opts, cbreaker.Logger(lg))
+		}
+		cb, err := cbreaker.New(h, "NetworkErrorRatio() > 0.5", opts...)
+		if err != nil {
+			panic(err)
+		}
+		d := &cbDriver{cb: cb}
+		serve := func() int {
+			rec := httptest.NewRecorder()
+			cb.ServeHTTP(rec, httptest.NewRequest("GET", "http://x.test/", nil))
+			return rec.Code
+		}
+		serve() // 502: trips at the first completion
+		if s, _, _ := d.observe(); s != "tripped" {
+			c.Count("endburst_setup_not_tripped", 1)
+			return
+		}
+		status.Store(200)
+		advance(fb + time.Duration(r.IntN(3)))
+		serve() // the arrival that starts the recovery period
+		if s, _, _ := d.observe(); s != "recovering" {
+			c.Count("endburst_setup_not_recovering", 1)
+			return
+		}
+		advance(rec + time.Duration(1+r.IntN(1000)))
+		G := 2 + r.IntN(7)
+		codes := make([]int, G)
+		start := make(chan struct{})
+		var wg sync.WaitGroup
+		var ready atomic.Int64
+		for g := 0; g < G; g++ {
+			wg.Add(1)
+			go func(g int) {
+				defer wg.Done()
+				ready.Add(1)
+				<-start
+				codes[g] = serve()
+			}(g)
+		}
+		for ready.Load() < int64(G) {
+			runtime.Gosched()
+		}
+		close(start)
+		done := make(chan struct{})
+		go func() { wg.Wait(); close(done) }()
+		select {
+		case <-done:
+		case <-time.After(cbHangTimeout):
+			c.Eval()
+			c.Violation("recovery-end/hang", sfmt("fallback %v recovery %v: %d requests released together just after the end of the recovery period (healthy backend): not all of them returned within %v: requests are blocked inside the breaker", fb, rec, G, cbHangTimeout), nil)
+			cbHangTimeout = 2 * time.Second
+			return
+		}
+		c.Eval()
+		c.Count("endburst_requests", int64(G))
+		for g, code := range codes {
+			if code != 200 {
+				c.Violation("recovery-end/refused", sfmt("fallback %v recovery %v: request %d of %d released just after the end of the recovery period got status %d instead of being passed to the (healthy) handler", fb, rec, g, G, code), nil)
+				return
+			}
+		}
+		if s, _, _ := d.observe(); s != "standby" {
+			c.Violation("recovery-end/state", sfmt("after the first requests past the recovery period the breaker is %s, not standby", s), nil)
+			return
+		}
+		after := make(chan int, 1)
+		go func() { after <- serve() }()
+		select {
+		case code := <-after:
+			if code != 200 {
+				c.Violation("recovery-end/refused", sfmt("a request after the breaker returned to standby got status %d", code), nil)
+				return
+			}
+		case <-time.After(cbHangTimeout):
+			c.Violation("recovery-end/hang", sfmt("fallback %v recovery %v: after %d requests released together at the end of the recovery period, the next request did not return within %v (blocked inside the breaker)", fb, rec, G, cbHangTimeout), nil)
+			cbHangTimeout = 2 * time.Second
+			return
+		}
+		c.Nontrivial(sfmt("endburst/%v/%v/%d/%d", fb, rec, G, i))
+		c.Count("endburst_nontrivial", 1)
+	})
+	c.Require("endburst_nontrivial", 2)
 }
